@@ -931,7 +931,7 @@ pub fn check(tier: Tier) -> i32 {
     let two = tier.pick(&mid, &full);
     let three = tier.pick(&small, &mid);
     run.rule = format!(
-        "visit: components of 1..3 core modules (k function imports x n local functions of body length l, bodies = nop padding + end) x ALL skip maps (every subset of each module's local function ids; variants that also name every imported id); 1 module: k<=2,n<=3,l<=3 with import-id variants ({} configs) x nested-component position; 2 modules: {} configs squared; 3 modules: {} configs cubed; oracle = iterator model (nested loops over wasmparser-decoded code sections), compared on (mod,func,instr,is_end,op) from construction to None and again after reset(). inject: components of 1..2 modules over {{k<=1,n in 1..2,l<=2, all skip subsets}} and 3 modules with k=0, every plan of <= {} probes (i32.const unique; drop) x modes before/after/alternate at every model-visited location (ordered pairs incl. same location), and on bodies with a block every plan of <= that many probes over ALL modes (before, after, alternate, empty alternate, function entry/exit, block entry/exit, block alternate, empty block alternate, semantic after), each also through the location-addressed API (`*_at(loc)` + `add_instr_at`) from a fresh iterator, so that locations in other modules than the one the iterator stands in occur; every core module of comp.encode() byte-equal to module.encode() after the same plan through ModuleIterator on a second parse. non-trivial class = (module count, per-module local count and skip pattern) resp. (module count, mode list, same location/module, on final end, skips present)",
+        "visit: components of 1..3 core modules (k function imports x n local functions of body length l, bodies = nop padding + end) x ALL skip maps (every subset of each module's local function ids; variants that also name every imported id); 1 module: k<=2,n<=3,l<=3 with import-id variants ({} configs) x nested-component position; 2 modules: {} configs squared; 3 modules: {} configs cubed; oracle = iterator model (nested loops over wasmparser-decoded code sections), compared on (mod,func,instr,is_end,op) from construction to None and again after reset(). inject: components of 1..2 modules over {{k<=1,n in 1..2,l<=2, all skip subsets}} and 3 modules with k=0, every plan of <= {} probes (i32.const unique; drop) x modes before/after/alternate at every model-visited location (ordered pairs incl. same location), and on bodies with a block every plan of <= that many probes (one-module components: <= 2 in both tiers) over ALL modes (before, after, alternate, empty alternate, function entry/exit, block entry/exit, block alternate, empty block alternate, semantic after), each also through the location-addressed API (`*_at(loc)` + `add_instr_at`) from a fresh iterator, so that locations in other modules than the one the iterator stands in occur; every core module of comp.encode() byte-equal to module.encode() after the same plan through ModuleIterator on a second parse. non-trivial class = (module count, per-module local count and skip pattern) resp. (module count, mode list, same location/module, on final end, skips present)",
         full.len(),
         two.len(),
         three.len(),
@@ -1042,7 +1042,10 @@ pub fn check(tier: Tier) -> i32 {
                 }
             };
             let model = model_visits(&d.mods, &d.skips);
-            for plan in plans_all_modes(&model, maxp) {
+            // pairs also in the quick tier for one-module components: a second injection at a location
+            // that already carries one (alternate then removal, function entry then before, ...)
+            let maxp_here = if base.mods.len() == 1 { 2 } else { maxp };
+            for plan in plans_all_modes(&model, maxp_here) {
                 // the location-addressed API has no function-level modes
                 if plan.iter().all(|p| p.mode != 4 && p.mode != 5) {
                     cases.push(Case { mods: base.mods.clone(), nest_at: None, plan: plan.clone(), at_api: true });
